@@ -84,6 +84,40 @@ Proof.
   specialize (H2 e x He Hx). unfold slot_live in *. rewrite Hi. destruct (negb (sidx_is_free (s_idx x))); lia.
 Qed.
 
+(** The dense handles after removing position [d] are the former ones minus the removed handle. *)
+Lemma destroyed_state_ents cfg s d e va vs' : Inv s -> ents s !! d = Some e ->
+  Inv (destroyed_state cfg s (eslot e) d e (last_ent s e) va vs') ->
+  (forall i, ents (destroyed_state cfg s (eslot e) d e (last_ent s e) va vs') !! i <> Some e) ->
+  forall z, z ∈ ents (destroyed_state cfg s (eslot e) d e (last_ent s e) va vs') <-> z ∈ ents s /\ z <> e.
+Proof.
+  intros HI Hd HI' Hgone.
+  set (s' := destroyed_state cfg s (eslot e) d e (last_ent s e) va vs') in *.
+  assert (Hdl : d < len s) by (rewrite <- (i_lents s HI); by eapply lookup_lt_Some).
+  (* the dense handles afterwards are the former ones minus e *)
+  intros z. split.
+  - intros Hz. apply elem_of_list_lookup in Hz as (i & Hi).
+    assert (Hil : i < len s - 1) by (apply lookup_lt_Some in Hi; rewrite (i_lents s' HI') in Hi; unfold s' in Hi; cbn [len destroyed_state] in Hi; lia).
+    split; [|intros ->; by apply (Hgone i)].
+    pose proof (destroyed_abs cfg s (eslot e) d e va vs' i HI Hd Hil) as Ha. fold s' in Ha.
+    destruct (abs_at_some s' i HI' ltac:(unfold s'; cbn [len destroyed_state]; lia)) as (e1 & r1 & Ha1 & He1 & _).
+    rewrite Hi in He1. injection He1 as <-. rewrite Ha1 in Ha. case_decide.
+    + unfold abs_at in Ha. destruct (ents s !! (len s - 1)) as [e2|] eqn:E2; [|done]. destruct (row_at _ _); [|done].
+      injection Ha as -> _. by eapply elem_of_list_lookup_2.
+    + unfold abs_at in Ha. destruct (ents s !! i) as [e2|] eqn:E2; [|done]. destruct (row_at _ _); [|done].
+      injection Ha as -> _. by eapply elem_of_list_lookup_2.
+  - intros [Hz Hne]. apply elem_of_list_lookup in Hz as (i & Hi).
+    assert (Hil : i < len s) by (apply lookup_lt_Some in Hi; by rewrite (i_lents s HI) in Hi).
+    assert (Hid : i <> d) by (intros ->; congruence).
+    set (j := if decide (i = len s - 1) then d else i).
+    assert (Hj : j < len s - 1) by (unfold j; case_decide; lia).
+    pose proof (destroyed_abs cfg s (eslot e) d e va vs' j HI Hd Hj) as Ha. fold s' in Ha.
+    destruct (abs_at_some s' j HI' ltac:(unfold s'; cbn [len destroyed_state]; lia)) as (e1 & r1 & Ha1 & He1 & _).
+    assert (e1 = z) as ->; [|by eapply elem_of_list_lookup_2].
+    rewrite Ha1 in Ha. unfold j in Ha. destruct (decide (i = len s - 1)) as [->|Hne'].
+    + rewrite decide_True in Ha by done. unfold abs_at in Ha. rewrite Hi in Ha. destruct (row_at _ _); [|done]. by injection Ha as ->.
+    + rewrite decide_False in Ha by done. unfold abs_at in Ha. rewrite Hi in Ha. destruct (row_at _ _); [|done]. by injection Ha as ->.
+Qed.
+
 (** Removal of the entity at dense position [d]: its handle moves to the dead list. *)
 Lemma hist2_destroyed cfg s iss dead d e va vs' : Inv s -> Hist2 s iss dead -> ents s !! d = Some e ->
   (snd e < vs')%N -> in_ver va -> in_ver vs' ->
@@ -95,30 +129,7 @@ Proof.
   assert (HI' : Inv s').
   { destruct (fwd' s d e HI Hd) as (Hs & _). by apply destroyed_inv. }
   assert (Hdl : d < len s) by (rewrite <- (i_lents s HI); by eapply lookup_lt_Some).
-  (* the dense handles afterwards are the former ones minus e *)
-  assert (Hents : forall z, z ∈ ents s' <-> z ∈ ents s /\ z <> e).
-  { intros z. split.
-    - intros Hz. apply elem_of_list_lookup in Hz as (i & Hi).
-      assert (Hil : i < len s - 1) by (apply lookup_lt_Some in Hi; rewrite (i_lents s' HI') in Hi; unfold s' in Hi; cbn [len destroyed_state] in Hi; lia).
-      split; [|intros ->; by apply (Hgone i)].
-      pose proof (destroyed_abs cfg s (eslot e) d e va vs' i HI Hd Hil) as Ha. fold s' in Ha.
-      destruct (abs_at_some s' i HI' ltac:(unfold s'; cbn [len destroyed_state]; lia)) as (e1 & r1 & Ha1 & He1 & _).
-      rewrite Hi in He1. injection He1 as <-. rewrite Ha1 in Ha. case_decide.
-      + unfold abs_at in Ha. destruct (ents s !! (len s - 1)) as [e2|] eqn:E2; [|done]. destruct (row_at _ _); [|done].
-        injection Ha as -> _. by eapply elem_of_list_lookup_2.
-      + unfold abs_at in Ha. destruct (ents s !! i) as [e2|] eqn:E2; [|done]. destruct (row_at _ _); [|done].
-        injection Ha as -> _. by eapply elem_of_list_lookup_2.
-    - intros [Hz Hne]. apply elem_of_list_lookup in Hz as (i & Hi).
-      assert (Hil : i < len s) by (apply lookup_lt_Some in Hi; by rewrite (i_lents s HI) in Hi).
-      assert (Hid : i <> d) by (intros ->; congruence).
-      set (j := if decide (i = len s - 1) then d else i).
-      assert (Hj : j < len s - 1) by (unfold j; case_decide; lia).
-      pose proof (destroyed_abs cfg s (eslot e) d e va vs' j HI Hd Hj) as Ha. fold s' in Ha.
-      destruct (abs_at_some s' j HI' ltac:(unfold s'; cbn [len destroyed_state]; lia)) as (e1 & r1 & Ha1 & He1 & _).
-      assert (e1 = z) as ->; [|by eapply elem_of_list_lookup_2].
-      rewrite Ha1 in Ha. unfold j in Ha. destruct (decide (i = len s - 1)) as [->|Hne'].
-      + rewrite decide_True in Ha by done. unfold abs_at in Ha. rewrite Hi in Ha. destruct (row_at _ _); [|done]. by injection Ha as ->.
-      + rewrite decide_False in Ha by done. unfold abs_at in Ha. rewrite Hi in Ha. destruct (row_at _ _); [|done]. by injection Ha as ->. }
+  pose proof (destroyed_state_ents cfg s d e va vs' HI Hd HI' Hgone) as Hents. fold s' in Hents.
   constructor; try done.
   - intros z Hz. apply elem_of_app in Hz as [Hz|Hz%elem_of_list_singleton]; [by apply Hds|]. subst.
     eapply (h_stored s iss HH). done.
